@@ -77,6 +77,41 @@ def gen_prefs(rng, single=False):
     return pf
 
 
+def strip_ws(t):
+    return ''.join(c for c in t if not c.isspace())
+
+
+def ref_property(p, pf):
+    """reference text of a property under the preferences pf (called while they are in force): name parts, `:`,
+    propertyNameSpacer, value text, and ` ` + priority parts"""
+    nameseq, value, prioseq = p.seqs
+    if not nameseq or not p.wellformed or (pf['validOnly'] and not p.valid):
+        return ''
+
+    def comment(c):
+        return c.cssText
+
+    out = []
+    for part in nameseq:
+        if hasattr(part, 'cssText'):
+            out.append(comment(part))
+        elif part == p.literalname and pf['defaultPropertyName'] and not pf['keepAllProperties']:
+            out.append(p.name)
+        else:
+            out.append(part)
+    out.append(':' + pf['propertyNameSpacer'] + value.cssText)
+    if prioseq:
+        out.append(' ')
+        for part in prioseq:
+            if hasattr(part, 'cssText'):
+                out.append(comment(part))
+            elif part == p.literalpriority and pf['defaultPropertyPriority']:
+                out.append(p.priority)
+            else:
+                out.append(part)
+    return ''.join(out)
+
+
 def respell(rng, name, allow_hex=True, allow_pad=False):
     """another spelling of the same identifier: case, simple escapes, hex escapes (, padding)"""
     out = []
@@ -526,6 +561,22 @@ VAR_VALUES = ['1', 'red', '1px solid', '"s"', 'rgb(1,2,3)', 'a /*k*/ b', '#fffff
 VAR_VALUES_BAD = ['}', '', ' ', ':', '1;2 x:']
 
 
+VAR_VALUES_ESCBLANK = ['a\\ ', '1 a\\ ']      # end in an escaped blank: only inside a block text, before `;`
+
+
+def value_via_block(cu, value):
+    """(cssText, value) of the PropertyValue the block parser builds for `q: value;` (token path)"""
+    from cssutils.css import CSSVariablesDeclaration
+    old = cu.log.raiseExceptions
+    cu.log.raiseExceptions = False
+    try:
+        d = CSSVariablesDeclaration(cssText='q: %s;' % value)
+    finally:
+        cu.log.raiseExceptions = old
+    pv = [it.value[1] for it in d.seq if it.type == 'var'][0]
+    return (pv.cssText, pv.value)
+
+
 def gen_var_ops(rng):
     base = rng.sample(VAR_NAMES, 3)
 
@@ -544,7 +595,8 @@ def gen_var_ops(rng):
             if rng.random() < 0.2:
                 out.append(('O', rng.choice(['/**/', '/*c*/'])))
             b = rng.choice(base)
-            out.append(('V', respell(rng, b, allow_hex=rng.random() < 0.3), rng.choice(VAR_VALUES)))
+            out.append(('V', respell(rng, b, allow_hex=rng.random() < 0.3),
+                        rng.choice(VAR_VALUES_ESCBLANK) if rng.random() < 0.08 else rng.choice(VAR_VALUES)))
         return out
 
     ops = []
